@@ -468,7 +468,16 @@ pub fn gen_c14(rng: &mut Rng) -> EnumCase {
     p.bed_zero_zero_pm = 0;
     p.huge = false;
     let mut base = gen::gen_pipe_case(rng, &p);
-    base.sched = Sched::Calm;
+    // half of the workloads run under a seeded schedule: runs are deterministic, so the fault-free operation log
+    // is reproducible under any fixed schedule, and faults then land while staged data is being handed over
+    base.sched = if rng.chance(1, 2) {
+        Sched::Seeded {
+            policy: rng.below(4) as u8,
+            seed: rng.next_u64(),
+        }
+    } else {
+        Sched::Calm
+    };
     base.read = ReadFaults::default();
     base.sink = SinkFaults::default();
     if rng.chance(1, 3) {
@@ -801,7 +810,6 @@ pub fn run_c14(ec: &EnumCase) -> RunReport {
 pub fn shrink_c14(ec: &EnumCase) -> Vec<EnumCase> {
     crate::props::shrink_pipe(&ec.base)
         .into_iter()
-        .filter(|b| b.sched == Sched::Calm)
         .map(|b| EnumCase {
             base: b,
             only_crash: None,
